@@ -45,10 +45,11 @@ Record ops (V : Type) := {
   o_add : V -> V -> V;
   o_sub : V -> V -> V;
   o_mul : V -> V -> V;
+  o_rint : V -> V;                     (* np.rint: nearest integer, ties to even *)
   o_cast : dtype -> dtype -> V -> V    (* astype between two DIFFERENT dtypes *)
 }.
 Arguments o_zero {V}. Arguments o_add {V}. Arguments o_sub {V}.
-Arguments o_mul {V}. Arguments o_cast {V}.
+Arguments o_mul {V}. Arguments o_rint {V}. Arguments o_cast {V}.
 
 (* the global generator: [g_next s k] = the k-th standard normal deviate that
    will be produced from state s; [g_adv s n] = the state after n draws *)
@@ -109,6 +110,7 @@ Inductive bexp :=
 | BAxisNone                               (* axis is None *)
 | BAxisIn (l : list (option Z))           (* axis in {...} *)
 | BDtypeNe (w : dsel) (d : dtype)         (* <dtype> != np.<d> *)
+| BIsInt (w : dsel)                       (* np.issubdtype(<dtype>, np.integer) *)
 | BShapeEmpty                             (* not signal.shape *)
 | BNdimEq (k : Z)                         (* len(signal.shape) == k *)
 | BNot (b : bexp)
@@ -132,6 +134,7 @@ Inductive stmt :=
 | SRandShapeInit                          (* random_shape = [1] * len(signal.shape) *)
 | SRandShapeSet                           (* random_shape[axis] = signal.shape[axis] *)
 | SAug (op : augop) (lo hi : option Z) (e : aexp)   (* signal[..., lo:hi] op= e *)
+| SRint                                   (* np.rint(signal, out=signal) *)
 | SIf (b : bexp) (th el : list stmt)
 | SReturnAstypeSaved.                     (* return signal.astype(signal_dtype, copy=False) *)
 
@@ -171,6 +174,8 @@ Fixpoint beval (b : bexp) (s : state) : bool :=
   | BAxisIn l => existsb (opt_eqb axis) l
   | BDtypeNe DSaved d => negb (dtype_eqb (s_saved s) d)
   | BDtypeNe DCur d => negb (dtype_eqb (a_dt (cur s)) d)
+  | BIsInt DSaved => negb (is_float (s_saved s))
+  | BIsInt DCur => negb (is_float (a_dt (cur s)))
   | BShapeEmpty => false                 (* a 1-D shape (n,) is a non-empty tuple *)
   | BNdimEq k => k =? 1                  (* signals are 1-D *)
   | BNot a => negb (beval a s)
@@ -225,6 +230,13 @@ Definition exec_aug (op : augop) (lo hi : option Z) (e : aexp) (s : state) : sta
     let res := conv O F64 (a_dt a) (zipw (binop op) (conv O (a_dt a) F64 tgt) v) in
     set_cur s (Build_arr (a_dt a) (slice_set lo hi (a_data a) res)) r.
 
+(* np.rint(signal, out=signal): element-wise, in place; the float loop does not
+   exist for an integer array written through out= (a casting error) *)
+Definition exec_rint (s : state) : state :=
+  let a := cur s in
+  if negb (is_float (a_dt a)) then raise s
+  else set_cur s (Build_arr (a_dt a) (map (o_rint O) (a_data a))) (s_rng s).
+
 Definition exec_return (s : state) : state :=
   let a := cur s in
   if dtype_eqb (a_dt a) (s_saved s) then
@@ -250,6 +262,7 @@ Fixpoint exec (st : stmt) (s : state) {struct st} : state :=
   | SRandShapeInit => s
   | SRandShapeSet => s
   | SAug op lo hi e => exec_aug op lo hi e s
+  | SRint => exec_rint s
   | SIf b th el =>
       (fix go (l : list stmt) (s : state) : state :=
          match l with [] => s | x :: r => go r (exec x s) end)
@@ -306,6 +319,10 @@ Definition noise_of (c : V) (g : list V) : list V :=
   map (fun z => o_add O (o_zero O) (o_mul O c z)) g.
 Definition dither_spec (c : V) (l g : list V) : list V :=
   zipw (o_add O) l (noise_of c g).
+
+(* Dither rounds to the nearest integer before the cast when the dtype is integral *)
+Definition rint_if_int (d : dtype) (l : list V) : list V :=
+  if is_float d then l else map (o_rint O) l.
 
 (* what apply returns for input data [x] of dtype [d]: work in float64, cast back *)
 Definition via_f64 (d : dtype) (f : list V -> list V) (x : list V) : list V :=
